@@ -452,6 +452,39 @@ func (e *Engine) verifyFunc(t *Target) (res *FuncResult) {
 			st.env[r] = c.w.zero(r.Type())
 		}
 	}
+	if t.lit != nil {
+		// captured variables of a function literal: arbitrary values, fixed at entry
+		seen := map[types.Object]bool{}
+		ast.Inspect(t.lit.Body, func(n ast.Node) bool {
+			id, ok := n.(*ast.Ident)
+			if !ok {
+				return true
+			}
+			v, ok := c.info.Uses[id].(*types.Var)
+			if !ok || seen[v] || v.IsField() || v.Pkg() == nil {
+				return true
+			}
+			if v.Parent() == v.Pkg().Scope() {
+				return true
+			}
+			if v.Pos() >= t.lit.Pos() && v.Pos() <= t.lit.End() {
+				return true
+			}
+			seen[v] = true
+			val := c.freshVal(v.Type(), "cap_"+v.Name())
+			for _, f := range c.typeFacts(val) {
+				c.fact(f)
+			}
+			c.refsOld(val)
+			st.env[v] = val
+			c.entry.env[v] = val
+			if _, dup := c.paramVals[v.Name()]; !dup {
+				c.paramVals[v.Name()] = val
+				c.paramObjs[v.Name()] = v
+			}
+			return true
+		})
+	}
 	if fs != nil {
 		if fs.Assigns != "" {
 			c.autoFrame = true
